@@ -1206,7 +1206,9 @@ def _hasattr(obj, name):
 
 def _len(x):
     if isinstance(x, Sym):
-        raise Top(f"len of opaque value {x}")
+        return x.shape[0]                      # len(a) == a.shape[0] for arrays
+    if isinstance(x, AT) and x.axes and not isinstance(x.axes[0], int):
+        return x.shape[0]
     return len(x)
 
 
@@ -1352,6 +1354,9 @@ def make_world_externals(world_ref):
              unravel_index=_unravel_index, divmod=_divmod_model,
              take=_take, einsum=_einsum_model, split=_split_model, cumsum=opaque_fn('cumsum'),
              sqrt=opaque_fn('sqrt'), exp=opaque_fn('exp'), where=_where, prod=opaque_fn('prod'),
+             equal=lambda a, b: Pred.compare(lift(a), lift(b), '=='), not_equal=lambda a, b: Pred.compare(lift(a), lift(b), '==').negate(),
+             remainder=lambda a, b: a % b, mod=lambda a, b: a % b, floor_divide=lambda a, b: a // b,
+             broadcast_to=symaware('broadcast_to', alg.jnp_broadcast_to), diagonal=symaware('diagonal', alg.jnp_diagonal),
              square=_elementwise('square', lambda x: x * x), power=_elementwise('power', lambda x, n: x ** n),
              multiply=_elementwise('multiply', lambda x, y: x * y), add=_elementwise('add', lambda x, y: x + y),
              subtract=_elementwise('subtract', lambda x, y: x - y), divide=_elementwise('divide', lambda x, y: x / y),
